@@ -160,6 +160,18 @@ def tokFlt : Flt → String
     let (m, e) := stripTwos (Nat.log2 n.natAbs + 1) n (-(Nat.log2 d : Int))
     s!"f:{m}p{e}"
 
+/-- token of the big integer l * 2^n without building it when it has more than 2048 bits -/
+def tokShl (l : Int) (n : Nat) : String :=
+  let a := l.natAbs
+  if a == 0 then "b:0" else
+  let la := Nat.log2 a + 1
+  let bl := la + n
+  if bl ≤ 2048 then tokBig (l * 2 ^ n) else
+  let sign := if l < 0 then "-1" else "1"
+  let top := if la ≥ 64 then a >>> (la - 64) else a <<< (64 - la)
+  let low := if n ≥ 64 then 0 else (a <<< n) % 2 ^ 64
+  s!"B:{sign}:{bl}:{natHex top}:{natHex low}"
+
 def tokJV : JV → String
   | .null => "null"
   | .bool true => "true"
@@ -168,6 +180,7 @@ def tokJV : JV → String
   | .big i => tokBig i
   | .flt f => tokFlt f
   | .str bs => s!"s:{hexOfBytes bs}"
+  | .shl l n => tokShl l n
   | _ => "?"
 
 /-! ### predictions -/
@@ -412,28 +425,57 @@ def valueAgrees (p : Pred) (want got : String) : Bool :=
 /-- known defect classes (known_findings.json, status "known"): exactly these, nothing wider.
     (tobits-unit-zero, tojson-negative-indent-wrap and protobuf-seek0-loop were found by this check
     and have been fixed in /repo: they are violations again if they return.) -/
-def knownClass (_fn : String) (_vs : List JV) (_obs : String) : Option String := none
+def knownClass (fn : String) (vs : List JV) (obs : String) : Option String :=
+  let w := (words obs).headD ""
+  if fn == "_stdio_read/2" && (w == "panic:pkg/interp.(*Interp)._stdioRead" || w == "resource:mem") then
+    match vs with
+    | [_, _, l] =>
+      match castInt l with
+      | some n => if (stdioRead true n).noFault then none else some "stdio-read-length"
+      | none => none
+    | _ => none
+  else none
 
 def hasHugeString (toks : List String) : Bool := toks.any (·.startsWith "S:")
 
+/-- the property predicate on the observation alone (no model involved) -/
+def classVerdict (fn : String) (vs : List JV) (obs cls div : String) (huge : Bool) : String :=
+  -- memory exhaustion counts when it comes from SMALL values; with the 1 MiB string in some
+  -- position, jq code that needs kilobytes per character (split, regex matches) is recorded only
+  if cls == "panic" || cls == "crash" || (cls == "resource:mem" && !huge) then
+    match knownClass fn vs obs with
+    | some key => s!"KNOWN {key} {(words obs).headD ""}{div}"
+    | none => s!"PROPFAIL {(words obs).headD ""}{div}"
+  else if div.isEmpty then "OK" else (div.drop 2).toString
+
 def callVerdict (fn : String) (toks : List String) (obs : String) : String :=
-  match toks.mapM parseTok with
-  | none => "BADOP token"
-  | some vs =>
-    let vs := vs.map normalizeNumbers
-    match obsClass obs with
-    | none => s!"BADOP observation {obs}"
-    | some cls =>
+  match obsClass obs with
+  | none => s!"BADOP observation {obs}"
+  | some cls =>
+    if !(modelled.contains fn) then
+      -- not modelled: the verdict depends on the class only; the value tokens are not
+      -- interpreted (they must be present: one per position) unless a fault has to be classified
+      if toks.any (·.isEmpty) then "BADOP token"
+      else if cls == "panic" || cls == "crash" || cls == "resource:mem" then
+        match toks.mapM parseTok with
+        | some vs => classVerdict fn (vs.map normalizeNumbers) obs cls "" (hasHugeString toks)
+        | none => "BADOP token"
+      else classVerdict fn [] obs cls "" (hasHugeString toks)
+    else
+    match toks.mapM parseTok with
+    | none => "BADOP token"
+    | some vs =>
+      let vs := vs.map normalizeNumbers
       -- (2) model
       let div : String :=
         match predict fn toks vs with
-        | none => if modelled.contains fn then " ;DIVERGE model=unsupported-shape" else ""
+        | none => " ;DIVERGE model=unsupported-shape"
         | some p =>
           let c := if cls == "resource:mem" then "resource" else if cls == "crash" then "panic" else cls
           if !(p.classes.contains c) then
             -- a slow evaluation of something the model answers instantly is tolerated only for
-            -- the 1 MiB string and for skipped cases
-            -- … and for results of more than 2048 bits (a 256 MiB shift on a loaded machine)
+            -- the 1 MiB string, for skipped cases and for results of more than 2048 bits
+            -- (a 256 MiB shift on a loaded machine)
             let hugeResult := match p.value with | some v => v.startsWith "B:" | none => false
             if c == "resource" && !(p.classes.contains "panic") && (hasHugeString toks || obs == "resource:skipped" || hugeResult) then ""
             else s!" ;DIVERGE model={" ".intercalate p.classes}{match p.value with | some v => " " ++ v | none => ""}"
@@ -444,11 +486,7 @@ def callVerdict (fn : String) (toks : List String) (obs : String) : String :=
               | _ => s!" ;DIVERGE model=ok 1 {want}"
             | _, _ => ""
       -- (1) the property predicate, on the observation alone
-      if cls == "panic" || cls == "crash" || cls == "resource:mem" then
-        match knownClass fn vs obs with
-        | some key => s!"KNOWN {key} {(words obs).headD ""}{div}"
-        | none => s!"PROPFAIL {(words obs).headD ""}{div}"
-      else if div.isEmpty then "OK" else (div.drop 2).toString
+      classVerdict fn vs obs cls div (hasHugeString toks)
 
 /-! ### direct ops -/
 
